@@ -272,6 +272,8 @@ class Zygote:
         self.cov_first = {}
         self.cov_lazy = {}
         self.cov_writes = {}
+        self.cov_gwrites = {}
+        self.cov_gslots = {}
         self.sensitive = []
 
 
@@ -376,9 +378,20 @@ def _ref_task(item):
 
     codes = S.xsdata_code_objects()
     cov = S.CoverageCollector(codes)
+    state0 = S.GlobalState.snapshot()
     cov.install()
     rec = O.execute(Z.op_by_name[opname], env)
     cov.uninstall()
+    # module-level state this call replaced (not merely added to): state every caller shares. The lines
+    # of the executed library functions that name the global are where such a call can be disturbed.
+    replaced = S.GlobalState.replaced(state0, S.GlobalState.snapshot())
+    gnames = {p[1].split(".")[0] for p in replaced} | {p[1].split(".")[-1] for p in replaced}
+    glocs = set()
+    for code in cov.by_code:
+        if gnames & (set(code.co_names) | set(code.co_freevars)):
+            glocs |= {S.short_loc(code, ln) for _, _, ln in code.co_lines() if ln is not None and ln > code.co_firstlineno}
+    rec["cov_gwrites"] = sorted(glocs)
+    rec["cov_gslots"] = sorted({f"{p[0]}:{p[1]}" for p in replaced})
     # the same call again on the now warm instances: what it no longer executes is lazy initialisation;
     # attribute assignments on long-lived objects during this warm call are per-call shared-state writes
     warm = S.CoverageCollector(codes)
@@ -426,6 +439,8 @@ def compute_reference(opnames=None, timeout=60.0, coverage=False):
             Z.cov_first[items[idx][0]] = frozenset(value.pop("cov_first"))
             Z.cov_lazy[items[idx][0]] = frozenset(value.pop("cov_lazy"))
             Z.cov_writes[items[idx][0]] = frozenset(value.pop("cov_writes"))
+            Z.cov_gwrites[items[idx][0]] = frozenset(value.pop("cov_gwrites"))
+            Z.cov_gslots[items[idx][0]] = frozenset(value.pop("cov_gslots"))
         R[(items[idx][0], frozenset(items[idx][1]))] = value
     if len(R) != len(items):
         raise HarnessError("reference table incomplete")
